@@ -172,5 +172,11 @@ def register_buffered(R):
         modifies=[B, C, V, s, w, K, B + ".data"],
         tags="C01 C02 C03 C06 C10",
     )
+    R.contract(
+        "BufferedStreamDataConsumer.clear",
+        ensures=[("everything-dropped", f"isnone({B}) and isnone({K}) and isnone({V}) and isnone({C}) and {w} == 0 and {s} == 0", "C03 C10")] + inv_post,
+        modifies=[B, C, V, s, w, K],
+        tags="C03 C10",
+    )
     for prop in ("C01", "C02"):
         R.group(prop, "BufferedStreamDataConsumer.get_write_buffer", "BufferedStreamDataConsumer.next")
